@@ -8,6 +8,22 @@ props = [json.loads(l) for l in open(os.path.join(V, "properties.jsonl"))]
 DIFF = "bounded-exhaustive grammar/derivation enumeration executed on the real code, compared point by point with a reference interpreter"
 META = "bounded-exhaustive enumeration of identity-schema instantiations x documents executed on the real code; metamorphic oracle (implementation against itself)"
 claimed = {
+ "C06": ("explicit-state search over call histories on one compiled Expression (real code, prefix replay on fresh compilations); invariants on every transition",
+         "every sequence of up to 2 (3) Search calls over 12 documents (spare capacity with sentinels, shared sub-values, repeated documents), from cold and warmed-up states, for ~500 expressions: outcome equals a fresh one-shot Search, deep snapshots of all documents incl. hidden capacity unchanged, structural hash of the AST unchanged, earlier results unchanged",
+         "trusts the reflection-based deep hash/snapshot (core/deep.go)",
+         "4/C06"),
+ "C07": ("stateless model checking of the real code under a controlled cooperative scheduler (yield at every function entry): iterative preemption bounding (quick) / all scheduler states with state-key pruning (thorough); plus a free-running race-detector pass",
+         "2 (3) goroutines calling Expression.Search / Search / Compile on a shared Expression and shared documents: every schedule with <= 2 preemptions (thorough: every reachable state for 2 goroutines, bound 3 for 3); shared-state hash (AST, documents incl. capacity, all package-level variables) unchanged after every execution and after every yield of every solo run; every call returns its solo outcome",
+         "scheduling points are function entries; hardware memory ordering is not modelled; the race-detector pass is supporting (sampling) evidence",
+         "4/C07"),
+ "C09": ("bounded-exhaustive enumeration of integer parameters over the 64-bit range and of size families at doubling n on the tick-instrumented real code; deterministic cost oracle (loop iterations, bytes allocated)",
+         "all combinations of slice/index/find/replace/split/pad integer parameters from a 16-value alphabet spanning the 64-bit range on arrays and strings of length 0,1,3,8; numeric text with exponents/coefficients up to 10^5 digits; 80 size families at n = 64..4096: iterations <= 64*size*log2(size)+512, bytes <= 4096*size+1MiB, iterations(2n) <= 8*iterations(n)",
+         "work inside the standard library/decimal128 is visible only through allocation, the 8 GiB limit and the 60 s watchdog",
+         "4/C09"),
+ "C15": ("environment-answer search on the real code: every range over a map is a question answered by the explorer (all n! orders at every question; deviation bound 2 above the execution cap); plus a pristine-build phase under Go's own randomised iteration",
+         "for ~3700 (expression, document) pairs every vector of map-iteration orders is executed: deviations at non-enumerating sites (let, multi-select hash, merge, equality, AST walk) must not change the observation at all, deviations at enumerating sites only the order of the produced arrays",
+         "the seam covers the range statements the instrumenter lists (13 today; skipped sites are reported in the evidence)",
+         "4/C15"),
  "C03": ("bounded-exhaustive enumeration of byte strings, byte edits, Go values x placements x expressions and nesting families executed on the real code in worker processes; crash oracle (a dead worker is an observation)",
          "all byte strings up to length 4 (5) over the scanner alphabet and the single-byte-edit neighbourhood of the corpus expressions through Compile/MustCompile/Search/Expression.Search; 84 Go values (all numeric kinds at their extremes, NaN/Inf, malformed json.Number, decimal specials, nil containers, foreign types) at 5 placements under ~700 expressions; 16 nesting families at depths 10^2..10^6 each in its own process",
          "cyclic data and pad widths of astronomic magnitude are outside the claim; the known deep-nesting stack overflow (>= 10^6 levels) is recorded in known_findings.json",
